@@ -367,3 +367,116 @@ Proof.
       * destruct HT. constructor; simp_loc; auto; try discriminate.
       * apply (TInv_stable g); auto.
 Qed.
+
+(* ---------- reachable states ---------- *)
+Definition R (n : Z) (progs : list (list op)) (s : sysB) : Prop := reachable glob loc tstep (init n progs) s.
+
+Lemma R_inv n progs s : wf_prog n progs = true -> R n progs s -> Inv (gl s) (thr s).
+Proof. intros Hwf H. eapply reachable_inv; [apply Inv_step|apply Inv_init; exact Hwf|exact H]. Qed.
+
+Ltac step_cases Hs :=
+  unfold tstep in Hs; cbn [at_ prog] in Hs;
+  repeat match type of Hs with
+         | context [match ?x with _ => _ end] => destruct x eqn:?; cbn [at_ prog] in Hs
+         | context [if ?x then _ else _] => destruct x eqn:?; cbn [at_ prog] in Hs
+         end;
+  try discriminate; inversion Hs; subst; clear Hs.
+
+(* the ghost prog0 is the thread's client program *)
+Lemma R_prog0 n progs s u l : R n progs s -> nth_error (thr s) u = Some l -> nth_error progs u = Some (prog0 l).
+Proof.
+  intros H. revert u l.
+  refine (reachable_inv glob loc tstep
+            (fun _ ls => forall u l, nth_error ls u = Some l -> nth_error progs u = Some (prog0 l)) _ (init n progs) s _ H).
+  - intros g ls t c l g' l' es IH Hl Hs u x Hu.
+    apply nth_upd in Hu as [[<- [-> _]] | [Hne Hu]]; [|auto].
+    rewrite (IH t l Hl). f_equal. destruct l as [pr p lg ar dr p0]. step_cases Hs; reflexivity.
+  - cbn. intros u l Hl. rewrite nth_error_map in Hl. destruct (nth_error progs u); [|discriminate].
+    inversion Hl; subst. reflexivity.
+Qed.
+
+(* arr counts the operations of the client program whose arrival has been made *)
+Lemma arrivals_count_ops n progs s u l : wf_prog n progs = true -> R n progs s -> nth_error (thr s) u = Some l ->
+  nth_error progs u = Some (prog0 l) /\ length (prog0 l) = (arr l + length (todo l))%nat.
+Proof.
+  intros Hwf HR Hl. split; [eapply R_prog0; eauto|].
+  apply (T_len _ _ _ (I_thrd _ _ (R_inv _ _ _ Hwf HR) u l Hl)).
+Qed.
+
+(* ---------- C09, safety ---------- *)
+(* the step that emits the return event of a wait is the unlock step *)
+Lemma ret_is_unlock t c g l g' l' es : tstep t c g l = Some (g', l', es) -> In ret_ev es -> at_ l = B_unlock.
+Proof.
+  intros Hs Hret. destruct l as [pr p lg ar dr p0]. step_cases Hs; cbn in Hret;
+    repeat (destruct Hret as [Hret|Hret]; try discriminate); try contradiction; reflexivity.
+Qed.
+
+Lemma wait_returns_after_all n progs s t c l g' l' es :
+  wf_prog n progs = true -> R n progs s -> nth_error (thr s) t = Some l ->
+  tstep t c (gl s) l = Some (g', l', es) -> In ret_ev es ->
+  forall u lu, nth_error (thr s) u = Some lu ->
+    (arr l <= arr lu)%nat \/ (dropped lu = true /\ (arr lu < arr l)%nat).
+Proof.
+  intros Hwf HR Hl Hs Hret u lu Hu.
+  pose proof (ret_is_unlock _ _ _ _ _ _ _ Hs Hret) as Hpc.
+  pose proof (R_inv _ _ _ Hwf HR) as HI.
+  pose proof (I_thrd _ _ HI t l Hl) as [Tle _ TW _ _ _ _ _ _ _ _].
+  pose proof (I_thrd _ _ HI u lu Hu) as [_ Uge _ _ _ _ _ _ _ _ _].
+  rewrite Hpc in TW. cbn in TW.
+  assert (Z.of_nat (arr l) <= generation (gl s)).
+  { destruct (Z.eq_dec (Z.of_nat (arr l)) (generation (gl s) + 1)) as [E|E]; [specialize (TW E); discriminate|lia]. }
+  destruct (dropped lu) eqn:Hd.
+  - destruct (le_lt_dec (arr l) (arr lu)); [left; assumption|right; split; [reflexivity|assumption]].
+  - left. specialize (Uge eq_refl). lia.
+Qed.
+
+(* ---------- C09, the drop / count bookkeeping ---------- *)
+Lemma pending_le_active gen l : (pending gen l <= active l)%nat.
+Proof. unfold pending, active. destruct (dropped l); [lia|]. destruct (_ =? _); lia. Qed.
+
+Lemma drop_counts n progs s : wf_prog n progs = true -> R n progs s ->
+  threshold (gl s) = Z.of_nat (num_active (thr s)) /\
+  count (gl s) = Z.of_nat (num_pending (generation (gl s)) (thr s)) /\
+  0 <= count (gl s) <= threshold (gl s) /\
+  (1 <= threshold (gl s) -> 1 <= count (gl s)) /\
+  wrapped (gl s) = false.
+Proof.
+  intros Hwf HR. pose proof (R_inv _ _ _ Hwf HR) as [Hthr Hcnt Hcpos Hwr _ _ _ _ _ _].
+  repeat split; auto; try lia.
+  rewrite Hthr, Hcnt. apply inj_le. apply sum_mono. intros x _. apply pending_le_active.
+Qed.
+
+(* what one arrival does: the anchored mechanism, with the unsigned decrements never wrapping *)
+Lemma arrival_step n progs s t c l k g' l' es :
+  wf_prog n progs = true -> R n progs s -> nth_error (thr s) t = Some l -> at_ l = B_lock k ->
+  tstep t c (gl s) l = Some (g', l', es) ->
+  arr l' = S (arr l) /\ lgen l' = generation (gl s) /\ dropped l = false /\ dropped l' = is_drop k /\
+  Z.of_nat (arr l) = generation (gl s) /\
+  threshold g' = threshold (gl s) - (if is_drop k then 1 else 0) /\ 0 <= threshold g' /\
+  ((count (gl s) = 1 /\ generation g' = generation (gl s) + 1 /\ count g' = threshold g' /\ at_ l' = B_notify) \/
+   (1 < count (gl s) /\ generation g' = generation (gl s) /\ count g' = count (gl s) - 1 /\ at_ l' = B_sleep)).
+Proof.
+  intros Hwf HR Hl Hpc Hs.
+  pose proof (R_inv _ _ _ Hwf HR) as HI.
+  pose proof (I_thrd _ _ HI t l Hl) as [Tle Tge TW _ _ _ _ Tdr _ _ _].
+  destruct HI as [Hthr Hcnt _ _ _ _ _ _ _ _].
+  destruct l as [pr p lg ar dr p0]. cbn [at_] in Hpc. subst p. unfold todo in *. cbn [at_ prog arr dropped] in *.
+  assert (Hdr : dr = false) by (destruct dr; auto; specialize (Tdr eq_refl); discriminate).
+  assert (Har : Z.of_nat ar = generation (gl s)).
+  { specialize (Tge Hdr). destruct (Z.eq_dec (Z.of_nat ar) (generation (gl s) + 1)) as [E|E]; [specialize (TW E); discriminate|lia]. }
+  subst dr.
+  assert (Hpen : pending (generation (gl s)) (Loc pr (B_lock k) lg ar false p0) = 1%nat).
+  { unfold pending; cbn. destruct (Z.eqb_spec (Z.of_nat ar) (generation (gl s) + 1)); [lia|reflexivity]. }
+  pose proof (sum_ge_nth active _ t _ Hl) as Ga. pose proof (sum_ge_nth (pending (generation (gl s))) _ t _ Hl) as Gp.
+  rewrite Hpen in Gp. change (active _) with 1%nat in Ga.
+  assert (Ht1 : 1 <= threshold (gl s)) by (unfold num_active in Hthr; lia).
+  assert (Hc1 : 1 <= count (gl s)) by (unfold num_pending in Hcnt; lia).
+  destruct (dec_pos _ Ht1) as [Dt Zt]. destruct (dec_pos _ Hc1) as [Dc Zc].
+  unfold tstep in Hs. cbn [at_ prog lgen arr dropped prog0] in Hs.
+  destruct (mtx (gl s)); [discriminate|].
+  rewrite Dc in Hs. unfold pred in Hs. cbn [generation] in Hs. rewrite Z.eqb_refl in Hs. cbn [negb] in Hs.
+  destruct (Z.eqb_spec (count (gl s) - 1) 0) as [Ec|Ec]; destruct k; rewrite ?Dt in Hs;
+    inversion Hs; subst g' l' es; cbn; repeat split; auto; try lia.
+  all: try (left; repeat split; auto; lia).
+  all: right; repeat split; auto; lia.
+Qed.
